@@ -139,6 +139,7 @@ type Case struct {
 	Provs    []Prov
 	Files    []File
 	PkgNames []string `json:",omitempty"` // extra package-level identifiers declared in the user package
+	OtherFilesPlain bool `json:",omitempty"` // types/providers files sort before the declaration files and import the aliased external packages under their plain names
 	NamesGenerated bool `json:",omitempty"` // names.go carries another tool's "Code generated ... DO NOT EDIT." header
 	PkgFuncs []string `json:",omitempty"` // extra package-level functions (func X() int) that no declaration refers to
 	Features []string `json:",omitempty"`
@@ -393,6 +394,18 @@ func (u *Unit) PID() int {
 		return 100000 + u.VID
 	}
 	return -1
+}
+
+// HasInjectorNamed reports whether some declaration asks for a function of that name.
+func (c *Case) HasInjectorNamed(name string) bool {
+	for fi := range c.Files {
+		for _, in := range c.Files[fi].Injectors {
+			if in.Name == name {
+				return true
+			}
+		}
+	}
+	return false
 }
 
 func (c *Case) SetByName(name string) *SetDecl {
